@@ -792,6 +792,9 @@ class CellsImpl(*_cells_impl_base):
             else:
                 raise KeyError("Assignment in cells other than %s" % key)
         else:
+            if value is None and not self.get_property("allow_none"):
+                # Reject before the existing value is cleared
+                raise NoneReturnedError(get_node_repr((self, key, None)))
             if self.system._recalc_dependents:
                 targets = self.model.tracegraph.get_startnodes_from(node)
             self.clear_value_at(key)
